@@ -76,6 +76,89 @@ theorem slr_run (i : Gen.Instr) (h : slrInstr i = true) (c : Model.Context) (lab
         | (simp only [Proofs.Mvp4.isRegisterChange_eq, pure, Except.pure, Proofs.Mvp4.ite_ok, Proofs.Mvp4.ite_pair, ite_self, bind, Except.bind, throw, throwThe, MonadExceptOf.throw] at hr
            (repeat' split at hr) <;> first | (injection hr with hr; subst hr; intro hc; cases hc) | (exact absurd hr (by simp)))
 
+/-! ### instructions of the proved class (conditional branches included) -/
+
+theorem labelOk_pcOf (v : Word) (n : Nat) (h1 : v.toNat % 4 = 0) (h2 : v.toNat / 4 ≤ n) :
+    v = pcOf (v.toNat / 4) ∧ v.toNat / 4 ≤ n := by
+  refine ⟨?_, h2⟩
+  unfold pcOf
+  apply BitVec.eq_of_toNat_eq
+  simp only [BitVec.toNat_ofNat]
+  have : 4 * (v.toNat / 4) = v.toNat := by omega
+  rw [this]
+  exact (Nat.mod_eq_of_lt v.isLt).symm
+
+theorem g_memoryRead (app : App) (i : Gen.Instr) (h : gInstr app i = true) (c : Model.Context) (seq : Word) :
+    i.memoryRead c seq = [] := by
+  unfold gInstr at h
+  cases i <;> unfold_instr at h ⊢ <;> first | rfl | (simp [isMemType] at h)
+
+/-- the label of a conditional branch of the class is the address of an instruction (or of the end) -/
+theorem get_label (app : App) (i : Gen.Instr) (l : String) (h : gInstr app i = true) (hl : labelOf i = some l) :
+    ∃ k, k ≤ app.instrs.length ∧ GoMap.get app.labels l = (pcOf k, true) := by
+  simp only [gInstr, labelOk, hl, Bool.and_eq_true] at h
+  obtain ⟨_, h⟩ := h
+  unfold GoMap.get
+  cases hf : app.labels.find? l with
+  | none => rw [hf] at h; cases h
+  | some v =>
+    rw [hf] at h
+    simp only [Bool.and_eq_true, beq_iff_eq, decide_eq_true_eq] at h
+    obtain ⟨e1, e2⟩ := labelOk_pcOf v _ h.1 h.2
+    exact ⟨v.toNat / 4, e2, by rw [← e1]⟩
+
+set_option maxHeartbeats 4000000 in
+theorem g_run (app : App) (i : Gen.Instr) (h : gInstr app i = true) (c : Model.Context) (pc : Word)
+    (mem : List Byte) (seq : Word) (e : Gen.Execution) (hr : i.run c app.labels pc mem seq = .ok e) :
+    e.MemoryChange = false ∧ (e.Return = true → (i.instructionType == Gen.InstructionType.Ret) = true) ∧
+    (e.PcChange = true → i.instructionType.IsConditionalBranch = true ∧ ∃ k, k ≤ app.instrs.length ∧ e.NextPc = pcOf k) := by
+  have hs := Proofs.Mvp4.run_shape i c app.labels pc mem seq e hr
+  have hg := h
+  unfold gInstr at h
+  refine ⟨?_, ?_, ?_⟩
+  · cases i <;> unfold_instr at h hr <;>
+      first
+        | (simp [isMemType] at h; done)
+        | (simp only [Proofs.Mvp4.isRegisterChange_eq, pure, Except.pure, Proofs.Mvp4.ite_ok, Proofs.Mvp4.ite_pair, ite_self, bind, Except.bind, throw, throwThe, MonadExceptOf.throw] at hr
+           (repeat' split at hr) <;> first | (injection hr with hr; subst hr; rfl) | (exact absurd hr (by simp)))
+  · cases i <;> unfold_instr at h hr ⊢ <;>
+      first
+        | (intro _; rfl)
+        | (simp [isMemType, Gen.InstructionType.IsUnconditionalBranch] at h; done)
+        | (simp only [Proofs.Mvp4.isRegisterChange_eq, pure, Except.pure, Proofs.Mvp4.ite_ok, Proofs.Mvp4.ite_pair, ite_self, bind, Except.bind, throw, throwThe, MonadExceptOf.throw] at hr
+           (repeat' split at hr) <;> first | (injection hr with hr; subst hr; intro hc; cases hc) | (exact absurd hr (by simp)))
+  · intro hp
+    have hbt := hs.pcBranch hp
+    simp only [Bool.and_eq_true, Bool.not_eq_true'] at h
+    simp only [Proofs.Mvp4.isBranchType, h.1.2, Bool.false_or] at hbt
+    refine ⟨hbt, ?_⟩
+    cases i <;> unfold_instr at hbt hr <;>
+      first
+        | (simp [Gen.InstructionType.IsConditionalBranch] at hbt; done)
+        | (rename_i op
+           obtain ⟨k, hk, hget⟩ := get_label app _ op.label hg rfl
+           simp only [hget, Bool.not_true, Bool.false_eq_true, if_false, pure, Except.pure] at hr
+           split at hr
+           · injection hr with hr; subst hr; exact ⟨k, hk, rfl⟩
+           · injection hr with hr; subst hr; cases hp)
+
+/-- an instruction of the class other than `div`/`rem` cannot fail, whatever the registers hold -/
+theorem g_run_ok (app : App) (i : Gen.Instr) (h : gInstr app i = true) (hd : isDivRem i.instructionType = false)
+    (c : Model.Context) (pc : Word) (mem : List Byte) (seq : Word) : ∃ e, i.run c app.labels pc mem seq = .ok e := by
+  have hg := h
+  unfold gInstr at h
+  cases i <;> unfold_instr at h hd ⊢ <;>
+    first
+      | (simp [isMemType] at h; done)
+      | (simp [isDivRem] at hd; done)
+      | (simp [Gen.InstructionType.IsUnconditionalBranch] at h; done)
+      | (rename_i op
+         obtain ⟨k, hk, hget⟩ := get_label app _ op.label hg rfl
+         simp only [hget, Bool.not_true, Bool.false_eq_true, if_false, pure, Except.pure]
+         split <;> exact ⟨_, rfl⟩)
+      | (simp only [Proofs.Mvp4.isRegisterChange_eq, pure, Except.pure, Proofs.Mvp4.ite_ok, Proofs.Mvp4.ite_pair, ite_self, bind, Except.bind]
+         first | exact ⟨_, rfl⟩ | (split <;> exact ⟨_, rfl⟩))
+
 /-! ### the scoreboards -/
 
 theorem get1_incRegs (l : List Reg) : ∀ (m : GoMap Reg Int) (r : Reg),
@@ -418,6 +501,103 @@ theorem Back.executeR {app : App} {ctx : Model.Context} {W : List ExecCtx} {x : 
     rw [hrun] at he
     obtain ⟨c, hc⟩ := Proofs.Mvp4.stepTail_err (app := app) (a := a) he
     exact ⟨c, by rw [hstep, hc]⟩
+
+/-- `Back.execute` for the proved class: conditional branches included (the next architectural pc is the branch target
+when the branch is taken) -/
+theorem Back.executeG {app : App} {ctx : Model.Context} {W : List ExecCtx} {x : Runner} {X : List Runner} {a : Arch} {n0 : Nat}
+    (hb : Back ctx W (x :: X) a) (hsm : app.instrs.length < 250) (hpc : a.pc = pcOf n0) (hx : RunnerOk app x n0)
+    (hsl : gInstr app x.instr = true) (hnf : fwdOf x.instr = {}) :
+    (∀ e, x.instr.run ctx app.labels x.pc [] 0#32 = .ok e → e.Return = false →
+      ∃ a' n', (∃ c, stepArch Proofs.Mvp4.dc app a = .next a' c) ∧ a'.pc = pcOf n' ∧ n' ≤ app.instrs.length ∧
+        Back ctx (W ++ [ecOf x e]) X a' ∧ e.MemoryChange = false ∧
+        (e.PcChange = false → n' = n0 + 1) ∧
+        (e.PcChange = true → e.NextPc = pcOf n' ∧ x.instr.instructionType.IsConditionalBranch = true)) ∧
+    (∀ e, x.instr.run ctx app.labels x.pc [] 0#32 = .ok e → e.Return = true →
+      (∃ c, stepArch Proofs.Mvp4.dc app a = .halt .ret c) ∧ (x.instr.instructionType == Gen.InstructionType.Ret) = true) ∧
+    (∀ msg, x.instr.run ctx app.labels x.pc [] 0#32 = .error (.err msg) → ∃ c, stepArch Proofs.Mvp4.dc app a = .halt .err c) := by
+  have hn0 : n0 < app.instrs.length := by
+    rcases Nat.lt_or_ge n0 app.instrs.length with h | h
+    · exact h
+    · have := hx.2; rw [List.getElem?_eq_none h] at this; cases this
+  have hrun : x.instr.run ctx app.labels x.pc [] 0#32 = x.instr.run a.ctx app.labels a.pc [] 0#32 := by
+    rw [hpc, ← hx.1]
+    exact Proofs.Mvp4.run_congr x.instr hnf hb.sameRegs app.labels x.pc [] 0#32
+  have hstep : stepArch Proofs.Mvp4.dc app a = Proofs.Mvp4.stepTail app a x.instr [] := by
+    apply Proofs.Mvp4.stepArch_run
+    · rw [hpc]; exact instrAt4_pcOf app n0 (by omega) x.instr hx.2
+    · rw [g_memoryRead app x.instr hsl]; rfl
+  obtain ⟨ex, hex⟩ := Proofs.Refine.cycles_ok x.instr.instructionType
+  refine ⟨?_, ?_, ?_⟩
+  · intro e he hret
+    obtain ⟨hmc, _, hpcc⟩ := g_run app x.instr hsl ctx x.pc [] 0#32 e he
+    obtain ⟨n', hn'le, hn'⟩ : ∃ n', n' ≤ app.instrs.length ∧ Proofs.Mvp4.nextPc a e = pcOf n' := by
+      cases hp : e.PcChange with
+      | true =>
+        obtain ⟨_, k, hk, hk'⟩ := hpcc hp
+        exact ⟨k, hk, by simp only [Proofs.Mvp4.nextPc, hp, if_true, hk']⟩
+      | false => exact ⟨n0 + 1, by omega, by simp only [Proofs.Mvp4.nextPc, hp, Bool.false_eq_true, if_false, hpc, pcOf_succ]⟩
+    have hnf1 : e.PcChange = false → n' = n0 + 1 := by
+      intro hp
+      have h1 : Proofs.Mvp4.nextPc a e = pcOf (n0 + 1) := by simp only [Proofs.Mvp4.nextPc, hp, Bool.false_eq_true, if_false, hpc, pcOf_succ]
+      rw [hn'] at h1
+      have := congrArg BitVec.toNat h1
+      simp only [pcOf, BitVec.toNat_ofNat] at this
+      have e1 : 4 * n' % 2 ^ 32 = 4 * n' := Nat.mod_eq_of_lt (by omega)
+      have e2 : 4 * (n0 + 1) % 2 ^ 32 = 4 * (n0 + 1) := Nat.mod_eq_of_lt (by omega)
+      omega
+    have hnf2 : e.PcChange = true → e.NextPc = pcOf n' ∧ x.instr.instructionType.IsConditionalBranch = true := by
+      intro hp
+      refine ⟨?_, (hpcc hp).1⟩
+      rw [← hn']; simp only [Proofs.Mvp4.nextPc, hp, if_true]
+    have hshape := Proofs.Mvp4.run_shape x.instr ctx app.labels x.pc [] 0#32 e he
+    rw [hrun] at he
+    have hnext : Proofs.Mvp4.nextPc a e = pcOf n' := hn'
+    have hcommon : ∀ a' : Arch, a'.pc = pcOf n' →
+        a'.ctx.Registers = applyW [ecOf x e] a.ctx.Registers → a'.ctx.Memory = a.ctx.Memory → a'.ctx.rat = false →
+        a'.ctx.Transaction.entries = [] → Back ctx (W ++ [ecOf x e]) X a' := by
+      intro a' _ hr hm hrat htx
+      refine ⟨by rw [hr, hb.regs, applyW_append], hm.trans hb.mem, hb.ratS, hb.txS, hrat, htx, ?_, ?_, ?_, ?_, ?_⟩
+      · intro ec hec hrc
+        rcases List.mem_append.mp hec with hec | hec
+        · exact hb.ws ec hec hrc
+        · simp only [List.mem_singleton] at hec; subst hec
+          simp only [ecOf] at hrc ⊢
+          rw [hshape.wregs, hrc]; simp
+      · intro reg hne
+        have := hb.sb reg hne
+        simp only [cntW, cntX, List.map_append, List.sum_append, List.map_cons, List.map_nil, List.sum_cons, List.sum_nil,
+          ecOf] at this ⊢
+        omega
+      · intro y hy reg hreg hne ec hec
+        rcases List.mem_append.mp hec with hec | hec
+        · exact hb.nr1 y (List.mem_cons_of_mem _ hy) reg hreg hne ec hec
+        · simp only [List.mem_singleton] at hec; subst hec
+          have := (List.pairwise_cons.mp hb.nr2).1 y hy reg hreg hne
+          exact this
+      · exact (List.pairwise_cons.mp hb.nr2).2
+      · intro ec hec
+        rcases List.mem_append.mp hec with hec | hec
+        · exact hb.nomem ec hec
+        · simp only [List.mem_singleton] at hec; subst hec; exact hmc
+    cases hrc : e.RegisterChange with
+    | true =>
+      obtain ⟨c, hc⟩ := Proofs.Mvp4.stepTail_reg (app := app) (a := a) he hex hret hrc
+      refine ⟨_, n', ⟨c, by rw [hstep, hc]⟩, hnext, hn'le, ?_, hmc, hnf1, hnf2⟩
+      exact hcommon _ hnext (by simp only [Model.Seq.writeRegister, applyW, ecOf, hrc, if_true]) rfl hb.ratA hb.txA
+    | false =>
+      obtain ⟨c, hc⟩ := Proofs.Mvp4.stepTail_plain (app := app) (a := a) he hex hret hrc hmc
+      refine ⟨_, n', ⟨c, by rw [hstep, hc]⟩, hnext, hn'le, ?_, hmc, hnf1, hnf2⟩
+      exact hcommon _ hnext (by simp only [applyW, ecOf, hrc, Bool.false_eq_true, if_false]) rfl hb.ratA hb.txA
+  · intro e he hret
+    obtain ⟨_, hty, _⟩ := g_run app x.instr hsl ctx x.pc [] 0#32 e he
+    rw [hrun] at he
+    obtain ⟨c, hc⟩ := Proofs.Mvp4.stepTail_ret (app := app) (a := a) he hex hret
+    exact ⟨⟨c, by rw [hstep, hc]⟩, hty hret⟩
+  · intro msg he
+    rw [hrun] at he
+    obtain ⟨c, hc⟩ := Proofs.Mvp4.stepTail_err (app := app) (a := a) he
+    exact ⟨c, by rw [hstep, hc]⟩
+
 
 /-- the oldest issued runner leaves without a result (it was a `ret`) -/
 theorem Back.dropHead {ctx : Model.Context} {W : List ExecCtx} {x : Runner} {X : List Runner} {a : Arch}
